@@ -104,6 +104,7 @@ PROPS["C16"] = dict(
         R("C16.generated", "codec", "TestC16Generated", 8000, 500000),
         R("C16.arbitrary_text", "codec", "TestC16ArbitraryText", 8000, 500000),
         F("C16.fuzz_addr_parse", "codec", "FuzzAddrParse"),
+        R("C16.harvested", "swarms", "TestC16Harvested", 60, 2500, shrink=10, quick=dict(checks=60, shards=2, timeout=600)),
     ],
 )
 
